@@ -27,6 +27,9 @@ type ReadWriter interface {
 	Close() error
 
 	Size() (int64, error)
+
+	// Truncate 丢弃 size 之后的数据, 之后的写入从 size 处开始
+	Truncate(size int64) error
 }
 
 // NewReadWriter 根据配置创建具体的文件 IO 实现
